@@ -34,6 +34,7 @@ import (
 	wasm "github.com/CosmWasm/wasmd/x/wasm/types"
 	storetypes "github.com/cosmos/cosmos-sdk/store/types"
 	sdk "github.com/cosmos/cosmos-sdk/types"
+	"github.com/cosmos/cosmos-sdk/types/bech32"
 	gethabi "github.com/ethereum/go-ethereum/accounts/abi"
 	gethcommon "github.com/ethereum/go-ethereum/common"
 	"github.com/ethereum/go-ethereum/core/vm"
@@ -61,6 +62,7 @@ type c08Arg struct {
 	V     string      `json:"v,omitempty"`
 	S     []int       `json:"s,omitempty"`
 	B32   bool        `json:"b32,omitempty"`
+	Blen  int         `json:"blen,omitempty"` // payload bytes of the bech32 address (sdk accepts 1..255)
 	TF    bool        `json:"tf,omitempty"`
 	JSON  bool        `json:"json,omitempty"`
 	Funds []c08Fund   `json:"funds,omitempty"`
@@ -131,9 +133,13 @@ func jsonOK(b []byte) bool {
 }
 
 func strArg(s string) c08Arg {
-	_, e1 := sdk.AccAddressFromBech32(s)
+	acc, e1 := sdk.AccAddressFromBech32(s)
 	e2 := tftypes.DenomStr(s).Validate()
-	return c08Arg{T: "str", S: bytesToInts([]byte(s)), B32: e1 == nil, TF: e2 == nil}
+	a := c08Arg{T: "str", S: bytesToInts([]byte(s)), B32: e1 == nil, TF: e2 == nil}
+	if e1 == nil {
+		a.Blen = len(acc)
+	}
+	return a
 }
 
 // decode runs the same selector lookup and ABI decoding the precompiles use and abstracts the result.
@@ -391,6 +397,18 @@ func (g *gen) denom() string {
 		"u:n/i.b_i-", "unibi:uusd", "\xff\xfe\xfd", "ucoin2", strings.Repeat("z", 300))
 }
 
+// bech32Of: a VALID bech32 address string of the given payload length (the SDK accepts 1..255 bytes;
+// ordinary accounts have 20, module-derived / wasm contract accounts 32)
+func bech32Of(n int, fill byte) string {
+	b := make([]byte, n)
+	for i := range b {
+		b[i] = fill + byte(i)
+	}
+	return sdk.AccAddress(b).String()
+}
+
+var bech32Lens = []int{1, 2, 3, 10, 19, 20, 21, 31, 32, 33, 64, 128, 255}
+
 func (g *gen) addrStr() string {
 	w := g.w
 	hexs := w.other.Hex()
@@ -398,11 +416,25 @@ func (g *gen) addrStr() string {
 	if g.happy {
 		return g.pick(hexs, b32, w.deps.Sender.EthAddr.Hex())
 	}
-	switch g.r.Pick(30, 20, 50) {
+	switch g.r.Pick(26, 16, 18, 40) {
 	case 0:
 		return hexs
 	case 1:
 		return b32
+	case 2:
+		// valid bech32 with every payload length class, right / wrong HRP, upper case
+		v := bech32Of(bech32Lens[g.r.Intn(len(bech32Lens))], byte(g.r.Intn(200)))
+		switch g.r.Pick(70, 12, 12, 6) {
+		case 1:
+			return strings.ToUpper(v)
+		case 2:
+			if other, err := bech32.ConvertAndEncode("cosmos", []byte{1, 2, 3, 4, 5}); err == nil {
+				return other
+			}
+		case 3:
+			return v[:len(v)/2] + strings.ToUpper(v[len(v)/2:]) // mixed case: invalid bech32
+		}
+		return v
 	}
 	feeCollector := "nibi17xpfvakm2amg962yls6f84z3kell8c5l8u8ezw"
 	return g.pick("", hexs[2:], strings.ToUpper(hexs[2:]), "0X"+hexs[2:], hexs+"0", hexs[:41], "0x", b32[:len(b32)-1]+"q", "nibi1", "nibi1"+strings.Repeat("q", 38),
@@ -762,6 +794,26 @@ func (w *world) openers() []c08In {
 		c08In{2, "call", "0", qReq + 1000, q, "opener/oracle-gas-inside-body"},
 		c08In{2, "top", "1000000000000", 1_000_000, q, "opener/oracle-query-with-value"},
 		c08In{2, "top", "0", 1_000_000, q, "opener/oracle-ok"},
+		// address strings that are VALID bech32 with unusual payload lengths (1..255 bytes are accepted by the SDK)
+		c08In{0, "top", "0", 1_000_000, pack(ftABI, "whoAmI", bech32Of(3, 0xab)), "opener/bech32-len3-whoAmI"},
+		c08In{0, "call", "0", 1_000_000, pack(ftABI, "whoAmI", bech32Of(1, 7)), "opener/bech32-len1-whoAmI"},
+		c08In{0, "static", "0", 1_000_000, pack(ftABI, "whoAmI", bech32Of(19, 1)), "opener/bech32-len19-whoAmI"},
+		c08In{0, "delegate", "0", 1_000_000, pack(ftABI, "whoAmI", bech32Of(3, 0xab)), "opener/bech32-len3-whoAmI"},
+		c08In{0, "nested", "0", 1_000_000, pack(ftABI, "whoAmI", bech32Of(21, 3)), "opener/bech32-len21-whoAmI"},
+		c08In{0, "top", "0", 1_000_000, pack(ftABI, "whoAmI", bech32Of(32, 9)), "opener/bech32-len32-whoAmI"},
+		c08In{0, "call", "0", 1_000_000, pack(ftABI, "whoAmI", bech32Of(255, 0)), "opener/bech32-len255-whoAmI"},
+		c08In{0, "top", "0", 1_000_000, pack(ftABI, "whoAmI", strings.ToUpper(bech32Of(3, 0xab))), "opener/bech32-upper-whoAmI"},
+		c08In{0, "top", "0", 1_000_000, pack(ftABI, "bankMsgSend", bech32Of(3, 0xab), "unibi", big.NewInt(5)), "opener/bech32-len3-bankMsgSend"},
+		c08In{0, "call", "0", 1_000_000, pack(ftABI, "bankMsgSend", bech32Of(19, 2), "unibi", big.NewInt(5)), "opener/bech32-len19-bankMsgSend"},
+		c08In{0, "top", "0", 1_000_000, pack(ftABI, "bankMsgSend", bech32Of(32, 9), "unibi", big.NewInt(5)), "opener/bech32-len32-bankMsgSend"},
+		c08In{0, "static", "0", 1_000_000, pack(ftABI, "bankMsgSend", bech32Of(3, 0xab), "unibi", big.NewInt(5)), "opener/bech32-len3-bankMsgSend"},
+		c08In{0, "top", "0", 3_000_000, pack(ftABI, "sendToBank", w.ercErc20, big.NewInt(5), bech32Of(3, 0xab)), "opener/bech32-len3-sendToBank"},
+		c08In{0, "call", "0", 3_000_000, pack(ftABI, "sendToBank", w.coinErc20, big.NewInt(5), bech32Of(32, 4)), "opener/bech32-len32-sendToBank"},
+		c08In{0, "top", "0", 3_000_000, pack(ftABI, "sendToEvm", w.coinDenom, big.NewInt(5), bech32Of(3, 0xab)), "opener/bech32-len3-sendToEvm"},
+		c08In{0, "call", "0", 3_000_000, pack(ftABI, "sendToEvm", w.ercDenom, big.NewInt(5), bech32Of(19, 5)), "opener/bech32-len19-sendToEvm"},
+		c08In{1, "top", "0", 3_000_000, pack(wABI, "execute", bech32Of(3, 0xab), []byte(`{"increment":{}}`), []wasmCoin{}), "opener/bech32-len3-wasm-execute"},
+		c08In{1, "static", "0", 3_000_000, pack(wABI, "query", bech32Of(19, 1), []byte(`{"count":{}}`)), "opener/bech32-len19-wasm-query"},
+		c08In{1, "call", "0", 3_000_000, pack(wABI, "queryRaw", bech32Of(255, 1), []byte("state")), "opener/bech32-len255-wasm-queryRaw"},
 		// funds arrays naming one denom twice with amounts summing to 2^256
 		c08In{1, "top", "0", 3_000_000, pack(wABI, "execute", w.wasmAddr.String(), []byte(`{"increment":{}}`),
 			[]wasmCoin{{"unibi", two255}, {"unibi", two255}}), "opener/wasm-execute-dup-funds"},
